@@ -58,6 +58,17 @@ def anchors(ctx, st, case, Food=None):
     pf = need.in_units_percent_fed()
     if not all(close(float(v), 100.0, 1e-9, 0) for v in (pf.kcals, pf.fat, pf.protein)):
         ctx.violation("anchor-percent", "monthly requirement does not convert to 100 percent fed: %r" % ([pf.kcals, pf.fat, pf.protein],), case)
+    # the same anchor with the requirement written in DIFFERENT units per nutrient (fat in thousand tons, protein in million tons, and the other way round)
+    for fu, pu, ff_, pf_ in (("thousand tons", "million tons", 1.0, 1e-3), ("million tons", "thousand tons", 1e-3, 1.0)):
+        mixed = Food(cv.billion_kcals_needed, cv.thou_tons_fat_needed * ff_, cv.thou_tons_protein_needed * pf_, "billion kcals", fu, pu)
+        pm = mixed.in_units_percent_fed()
+        if not all(close(float(v), 100.0, 1e-9, 0) for v in (pm.kcals, pm.fat, pm.protein)):
+            ctx.violation("anchor-percent-mixed-units", "the monthly requirement written as (billion kcals, %s, %s) does not convert to 100 percent fed: %r" % (
+                fu, pu, [float(pm.kcals), float(pm.fat), float(pm.protein)]), dict(case, units=["billion kcals", fu, pu]))
+        gm = mixed.in_units("kcals per person per day", "grams per person per day", "effective kcals per person per day")
+        if not (close(float(gm.fat), st[1], 1e-9, 0) and close(float(gm.protein), st[0], 1e-9, 0)):
+            ctx.violation("anchor-daily-mixed-units", "the monthly requirement written as (billion kcals, %s, %s) converts to %r g fat and %r effective kcals of protein per person per day "
+                          "(daily requirements %r g, %r kcals)" % (fu, pu, float(gm.fat), float(gm.protein), st[1], st[0]), dict(case, units=["billion kcals", fu, pu]))
     bf = need.in_units_billions_fed()
     if not all(close(float(v), st[3] / 1e9, 1e-9, 0) for v in (bf.kcals, bf.fat, bf.protein)):
         ctx.violation("anchor-billions", "monthly requirement does not convert to population/1e9 billions fed", case)
